@@ -39,6 +39,7 @@ import (
 func init() { components["dkgstep"] = runDkgStep }
 
 var dkgStepInst = 0
+var honestRuns = map[string]int{}
 
 func runDkgStep(r *prng.R, s *out.Sink, tier string) {
 	runs := 60
@@ -142,8 +143,12 @@ func dkgStepRun(kind string, r *prng.R, s *out.Sink, n, t, msgLen int, scenario 
 	// wait — after it has tested the context, holding its lock, before sync.Cond.Wait. The context monitor's wake-up must
 	// not get lost in that window.
 	cancelAtPark := 0
-	if scenario == "honest" && dkgStepInst%4 == 1 {
-		cancelAtPark = 1 + r.Intn(3)
+	if scenario == "honest" {
+		// every second fault-free run of each backend
+		honestRuns[kind]++
+		if honestRuns[kind]%2 == 1 {
+			cancelAtPark = 1 + r.Intn(3)
+		}
 	}
 	var parks, hookCancelled int32
 	var cancelHook func()
